@@ -100,7 +100,13 @@ func (_this *Context) SwapBuilder(builder Builder) Builder {
 
 func (_this *Context) ArtificiallyTerminate() {
 	for len(_this.builderStack) > 1 {
+		depth := len(_this.builderStack)
 		_this.CurrentBuilder.BuildArtificiallyEndContainer(_this)
+		// Builders that are not containers themselves (pointer, interface, edge, node, ...) do not
+		// unstack when told to end artificially. Drop them so that every round makes progress.
+		for len(_this.builderStack) >= depth {
+			_this.UnstackBuilder()
+		}
 	}
 }
 
